@@ -190,5 +190,21 @@ def run(ctx):
         all_ok = [bb for bb, cls_, det in an.ret_assignments() if cls_ == 'ok']
         ctx.ob('R15.5', 'sqlite: Ok(()) only on the matching branch', len(all_ok) == 1, ctx.where(b), '%d Ok returns' % len(all_ok), construct='sqlite:ok-count')
 
+    # ---- R15.6 the poisoned test is meaningful: interact never recovers a poisoned lock ----------------------------
+    ia = prog.body('deadpool_sync::SyncWrapper::interact::{closure#0}')
+    if ia is None:
+        ctx.undecide('R15.6', 'SyncWrapper::interact not extracted')
+    else:
+        for blk, cb in closure_args_of(prog, ia, ['deadpool_runtime::Runtime::spawn_blocking']):
+            can = prog.an(cb)
+            ctx.saw(cb)
+            rec = [(x.term.line, sorted(x.term.callee_names())[0]) for x in cb.blocks if x.term.kind == 'call' and not x.cleanup and
+                   any(n.endswith('PoisonError::<T>::into_inner') or n.endswith('PoisonError::into_inner') or n.endswith('::unwrap_or_else') or n.endswith('::unwrap_or') for n in x.term.callee_names())
+                   and any(s[0] == 'call' and s[1] == 'std::sync::Mutex::lock' for a in x.term.args for s in sources(can, a, deep=True))]
+            cu = [(x.term.line) for x in cb.blocks if x.term.kind == 'call' and not x.cleanup and any(n.endswith('panic::catch_unwind') for n in x.term.callee_names())]
+            ctx.ob('R15.6', 'an interaction never runs on (or hides) a poisoned connection', not rec and not cu, ctx.where(cb),
+                   'interact recovers the poisoned lock (%s) or catches the panic (%s): recycle() can validate and reissue a connection whose closure panicked' % (rec, cu) if rec or cu else '',
+                   construct='interact:poison-recovery')
+
     ctx.not_decided += ['what the backends report (has_broken, is_valid, the sqlite echo)']
     ctx.assumptions += ['an Err from recycle() means discarded-and-replaced (C04) with capacity kept (C02)']
